@@ -155,6 +155,40 @@ func c05Specs() []*bfsSpec {
 				Alphabet: append(hostileAlphabet(0, 3, 2*wchunk, true), torrentSide...), Depth: 2, DepthT: 3})
 		}
 	}
+	// a nearly full event queue: a peer that is torn down (by its remote, or by a
+	// message it refuses) while the torrent has not yet taken its earlier events
+	// must not be able to wedge the loop's blocking exchanges with it
+	{
+		hostile := peerCfg{Fast: true, Ext: true, DontHave: 7, Pex: 9, Metadata: 8}
+		honest := peerCfg{Fast: true, Ext: true, DontHave: 7, Pex: 9, Metadata: 8}
+		bad := func(m rc.Msg) string { return fmt.Sprintf("raw:0:%s", hexFrame(m)) }
+		for _, ecap := range []int{1, 2} {
+			cfg := worldCfg{Geom: "gtail", Peers: []peerCfg{hostile, honest}, Have: []int{0}, EventCap: ecap}
+			specs = append(specs, &bfsSpec{Name: fmt.Sprintf("c05-smallqueue-%d", ecap), Cfg: cfg,
+				Alphabet: []string{"bf:0:7", "have:0:1", "close:0", "stall:0", bad(rc.Msg{Kind: rc.Bitfield, Data: bytes.Repeat([]byte{0xFF}, 4096)}), bad(rc.Msg{Kind: rc.Piece, Index: 0, Begin: 0, Data: bytes.Repeat([]byte{0x5A}, 16384)}),
+					"interested:0", "interested:1", "unchoke:0", "utick", "tick", "ev", "drain", "want:1:1", "addpeer:3", "adv:2"},
+				Depth: 4, DepthT: 5})
+		}
+	}
+	// metadata size guesses that grow and shrink while blocks arrive
+	{
+		voter := peerCfg{Fast: true, Ext: true, Metadata: 8, MetadataSize: 40000}
+		hostile := peerCfg{Fast: true, Ext: true, Metadata: 8}
+		var al []string
+		for _, ms := range []uint32{0, 20000, 40000, 100000} {
+			al = append(al, fmt.Sprintf("raw:0:%s", hexFrame(rc.Msg{Kind: rc.Ext0, M: map[string]uint8{"ut_metadata": 2}, HasM: true, MetadataSize: ms})))
+		}
+		for _, pc := range []uint32{0, 1, 2, 3, 6, 7} {
+			for _, ts := range []uint32{20000, 40000, 100000} {
+				for _, l := range []int{16384, 3616, 7232, 1696} {
+					al = append(al, fmt.Sprintf("raw:0:%s", hexFrame(rc.Msg{Kind: rc.ExtMetadata, ID: 2, MsgType: 1, MPiece: pc, TotalSize: ts, HasTotal: true, Data: bytes.Repeat([]byte{0x4D}, l)})))
+				}
+			}
+		}
+		al = append(al, "mtick", "adv:2", "close:1")
+		cfg := worldCfg{Geom: "gtail", Peers: []peerCfg{hostile, voter}, Magnet: true, AutoDrain: true, InfoSize: 40000}
+		specs = append(specs, &bfsSpec{Name: "c05-magnet-resize", Cfg: cfg, Alphabet: al, Depth: 3, DepthT: 4})
+	}
 	return specs
 }
 
